@@ -149,7 +149,8 @@ theorem aux_total (n : Nat) (s1 s2 : Str) (acc : List (Str × Str)) : aux n s1 s
                   split
                   · rw [slice_some s1 (start + 2) e (by omega) (by omega),
                       slice_some s2 start (s2.length - (s1.length - (e + 1))) (by omega) (by omega)]
-                    simp
+                    simp only
+                    split <;> simp
                   · simp
               | some next =>
                 simp only
@@ -173,7 +174,9 @@ theorem aux_total (n : Nat) (s1 s2 : Str) (acc : List (Str × Str)) : aux n s1 s
                       slice_some s2 start (start + m) (by omega) (by omega),
                       slice_some s2 (start + m) s2.length (by omega) (by omega)]
                     simp only
-                    exact ih _ _ _
+                    split
+                    · exact ih _ _ _
+                    · simp
                   · simp [hm0]
 
 theorem gen_total (s1 s2 : Str) : gen s1 s2 ≠ .panic := aux_total _ _ _ _
@@ -190,11 +193,11 @@ theorem aux_inv (n : Nat) (s1 s2 : Str) (acc ps : List (Str × Str)) (h : aux (n
       indexOf closeBrace s1 = some e ∧ start + 2 ≤ e ∧ e + 1 ≤ s1.length ∧
       ((indexOf dollarBrace (s1.drop (e + 1)) = none ∧ (s1.drop (e + 1)).length + start ≤ s2.length ∧
           s1.drop (e + 1) = s2.drop (s2.length - (s1.drop (e + 1)).length) ∧
-          ps = acc ++ [((s1.drop (start + 2)).take (e - (start + 2)),
-                        (s2.drop start).take (s2.length - (s1.drop (e + 1)).length - start))]) ∨
-       (∃ m, m > 0 ∧ start + m ≤ s2.length ∧
-          aux n (s1.drop (e + 1)) (s2.drop (start + m))
-            (acc ++ [((s1.drop (start + 2)).take (e - (start + 2)), (s2.drop start).take m)]) = .ok ps)) := by
+          setPatch acc ((s1.drop (start + 2)).take (e - (start + 2)))
+                        ((s2.drop start).take (s2.length - (s1.drop (e + 1)).length - start)) = some ps) ∨
+       (∃ m acc', m > 0 ∧ start + m ≤ s2.length ∧
+          setPatch acc ((s1.drop (start + 2)).take (e - (start + 2))) ((s2.drop start).take m) = some acc' ∧
+          aux n (s1.drop (e + 1)) (s2.drop (start + m)) acc' = .ok ps)) := by
   unfold aux at h
   cases hs : indexOf dollarBrace s1 with
   | none => simp [hs] at h
@@ -240,8 +243,12 @@ theorem aux_inv (n : Nat) (s1 s2 : Str) (acc ps : List (Str × Str)) (h : aux (n
                   rw [slice_some s1 (start + 2) e (by omega) (by omega),
                     slice_some s2 start (s2.length - rest.length) (by omega) (by omega)] at h
                   simp only at h
-                  injection h with h
-                  exact ⟨rfl, by omega, heq, h.symm⟩
+                  cases hsp : setPatch acc ((s1.drop (start + 2)).take (e - (start + 2))) ((s2.drop start).take (s2.length - rest.length - start)) with
+                  | none => rw [hsp] at h; cases h
+                  | some acc' =>
+                    rw [hsp] at h
+                    injection h with h
+                    exact ⟨rfl, by omega, heq, by rw [h]⟩
                 · rw [if_neg heq] at h; cases h
             | some next =>
               right
@@ -269,7 +276,11 @@ theorem aux_inv (n : Nat) (s1 s2 : Str) (acc ps : List (Str × Str)) (h : aux (n
                   simp only at h
                   have : start + m - start = m := by omega
                   rw [this] at h
-                  exact ⟨m, hm0, by omega, h⟩
+                  cases hsp : setPatch acc ((s1.drop (start + 2)).take (e - (start + 2))) ((s2.drop start).take m) with
+                  | none => rw [hsp] at h; cases h
+                  | some acc' =>
+                    rw [hsp] at h
+                    exact ⟨m, acc', hm0, by omega, hsp, h⟩
                 · rw [if_neg hm0] at h; cases h
       · simp [hp] at h
 
@@ -291,6 +302,82 @@ theorem subst_none (σ : Str → Option Str) (F : Nat) (s : Str) (h : indexOf do
   | zero => rfl
   | succ F => simp [subst, h]
 
+theorem setPatch_some (acc acc' : List (Str × Str)) (n v : Str) (h : setPatch acc n v = some acc') :
+    acc' = acc ++ [(n, v)] := by
+  unfold setPatch at h
+  split at h
+  · split at h
+    · cases h
+    · injection h with h; exact h.symm
+  · injection h with h; exact h.symm
+
+theorem lookupLast_mem (ps : List (Str × Str)) (k w : Str) (h : lookupLast ps k = some w) : (k, w) ∈ ps := by
+  unfold lookupLast at h
+  cases hf : ps.reverse.find? (·.1 = k) with
+  | none => simp [hf] at h
+  | some e =>
+    simp only [hf, Option.map, Option.some.injEq] at h
+    have hm := List.mem_of_find?_eq_some hf
+    have hk := List.find?_some hf
+    simp only [decide_eq_true_eq] at hk
+    obtain ⟨ek, ev⟩ := e
+    simp only at hk h; subst hk; subst h
+    exact List.mem_reverse.mp hm
+
+theorem lookupLast_none (ps : List (Str × Str)) (k : Str) (h : lookupLast ps k = none) : ∀ p ∈ ps, p.1 ≠ k := by
+  unfold lookupLast at h
+  cases hf : ps.reverse.find? (·.1 = k) with
+  | some e => simp [hf] at h
+  | none =>
+    rw [List.find?_eq_none] at hf
+    intro p hp
+    have := hf p (List.mem_reverse.mpr hp)
+    simpa using this
+
+theorem setPatch_agree (acc acc' : List (Str × Str)) (n v : Str) (h : setPatch acc n v = some acc')
+    (ha : Agree acc) : Agree acc' := by
+  have he := setPatch_some acc acc' n v h
+  -- every earlier entry for n already carries v
+  have hold : ∀ q ∈ acc, q.1 = n → q.2 = v := by
+    intro q hq hqn
+    unfold setPatch at h
+    cases hl : lookupLast acc n with
+    | none => exact absurd hqn (lookupLast_none acc n hl q hq)
+    | some w =>
+      simp only [hl] at h
+      split at h
+      · cases h
+      · rename_i hne
+        have hw : w = v := by simpa using hne
+        have := ha q hq (n, w) (lookupLast_mem acc n w hl) hqn
+        simp only at this; rw [this, hw]
+  subst he
+  intro p hp q hq hpq
+  simp only [List.mem_append, List.mem_singleton] at hp hq
+  rcases hp with hp | rfl <;> rcases hq with hq | rfl
+  · exact ha p hp q hq hpq
+  · exact hold p hp hpq
+  · exact (hold q hq hpq.symm).symm
+  · rfl
+
+theorem aux_agree (n : Nat) (s1 s2 : Str) (acc ps : List (Str × Str)) (h : aux n s1 s2 acc = .ok ps)
+    (ha : Agree acc) : Agree ps := by
+  induction n generalizing s1 s2 acc with
+  | zero => simp [aux] at h
+  | succ n ih =>
+    obtain ⟨start, e, _, _, _, _, _, _, hcase⟩ := aux_inv n s1 s2 acc ps h
+    rcases hcase with ⟨_, _, _, hsp⟩ | ⟨m, acc', _, _, hsp, hrec⟩
+    · exact setPatch_agree _ _ _ _ hsp ha
+    · exact ih _ _ _ hrec (setPatch_agree _ _ _ _ hsp ha)
+
+theorem agree_consistent (ps : List (Str × Str)) (h : Agree ps) : Consistent ps := by
+  intro p hp
+  cases hl : lookupLast ps p.1 with
+  | none => exact absurd rfl (lookupLast_none ps p.1 hl p hp)
+  | some w =>
+    have := h (p.1, w) (lookupLast_mem ps p.1 w hl) p hp rfl
+    simp only at this; rw [this]
+
 theorem aux_sound (n : Nat) (s1 s2 : Str) (acc ps : List (Str × Str)) (h : aux n s1 s2 acc = .ok ps) :
     ∃ qs, ps = acc ++ qs ∧ ∀ (σ : Str → Option Str) (F : Nat), s1.length + 1 ≤ F →
       (∀ p ∈ qs, σ p.1 = some p.2) → subst σ F s1 = s2 := by
@@ -298,8 +385,9 @@ theorem aux_sound (n : Nat) (s1 s2 : Str) (acc ps : List (Str × Str)) (h : aux 
   | zero => simp [aux] at h
   | succ n ih =>
     obtain ⟨start, e, hs, hsl, hp, he, h2, hel, hcase⟩ := aux_inv n s1 s2 acc ps h
-    rcases hcase with ⟨hn, hl, heq, hps⟩ | ⟨m, hm0, hml, hrec⟩
-    · refine ⟨_, hps, ?_⟩
+    rcases hcase with ⟨hn, hl, heq, hsp⟩ | ⟨m, acc', hm0, hml, hsp, hrec⟩
+    · have hps := setPatch_some _ _ _ _ hsp
+      refine ⟨_, hps, ?_⟩
       intro σ F hF hσ
       obtain ⟨F', rfl⟩ : ∃ F', F = F' + 1 := ⟨F - 1, by omega⟩
       rw [subst_step σ F' s1 start e hs he h2 _ (hσ _ List.mem_cons_self), subst_none σ F' _ hn, hp]
@@ -312,7 +400,9 @@ theorem aux_sound (n : Nat) (s1 s2 : Str) (acc ps : List (Str × Str)) (h : aux 
       have : s2.length - (s2.drop (s2.length - (s1.drop (e + 1)).length)).length = s2.length - (s1.drop (e + 1)).length := by
         rw [← heq]
       rw [this, List.take_append_drop]
-    · obtain ⟨qs, hqs, hsub⟩ := ih _ _ _ hrec
+    · have hacc := setPatch_some _ _ _ _ hsp
+      subst hacc
+      obtain ⟨qs, hqs, hsub⟩ := ih _ _ _ hrec
       refine ⟨((s1.drop (start + 2)).take (e - (start + 2)), (s2.drop start).take m) :: qs, by rw [hqs]; simp, ?_⟩
       intro σ F hF hσ
       obtain ⟨F', rfl⟩ : ∃ F', F = F' + 1 := ⟨F - 1, by omega⟩
@@ -320,11 +410,14 @@ theorem aux_sound (n : Nat) (s1 s2 : Str) (acc ps : List (Str × Str)) (h : aux 
       rw [hsub σ F' (by simp; omega) (fun p hp' => hσ p (by simp [hp']))]
       rw [← List.take_add, List.take_append_drop]
 
-theorem gen_sound (s1 s2 : Str) (ps : List (Str × Str)) (h : gen s1 s2 = .ok ps) (hc : Consistent ps) :
+theorem gen_consistent (s1 s2 : Str) (ps : List (Str × Str)) (h : gen s1 s2 = .ok ps) : Consistent ps :=
+  agree_consistent ps (aux_agree _ _ _ _ _ h (by intro p hp; cases hp))
+
+theorem gen_sound (s1 s2 : Str) (ps : List (Str × Str)) (h : gen s1 s2 = .ok ps) :
     interpolate (lookupLast ps) s1 = s2 := by
   obtain ⟨qs, hqs, hsub⟩ := aux_sound _ _ _ _ _ h
   simp only [List.nil_append] at hqs
   subst hqs
-  exact hsub (lookupLast ps) _ (Nat.le_refl _) hc
+  exact hsub (lookupLast ps) _ (Nat.le_refl _) (gen_consistent s1 s2 ps h)
 
 end Scalibr.Pom
